@@ -22,7 +22,7 @@ ASSUMPTIONS = ['CachedMethods compatibility shim', 'SMILES language bound: < 100
                '(documented behaviour of the raw reader)']
 SPECS = ['', 'r', 'a', 'A', 'm', 'h', 'ra', 'rA', 'rm', 'rh', 'rAa', 'rmh', 'Am', 'ah', 'rAmh', 'rahA']
 CONFIG = {
-    'quick': {'shards': 16, 'budget_s': 100, 'n_corpus': 1200, 'n_ring': 160, 'writes': 10, 'inj_atoms': 4,
+    'quick': {'shards': 16, 'budget_s': 300, 'n_corpus': 1200, 'n_ring': 160, 'writes': 10, 'inj_atoms': 4,
               'floors': {'evaluations': 8000, 'distinct_nontrivial': 500, 'roundtrip.compared': 6000,
                          'inj.graphs': 3000, 'inj.stereo-sets': 20, 'closure.ge10': 20, 'recorder.calls': 6000}},
     'thorough': {'shards': 16, 'budget_s': 1500, 'n_corpus': 4200, 'n_ring': 8000, 'writes': 60, 'inj_atoms': 5,
